@@ -5,6 +5,7 @@ package main
 // sym.go, decided by Fourier–Motzkin elimination. No external solver.
 
 import (
+	"os"
 	"fmt"
 	"go/token"
 	"go/types"
@@ -346,7 +347,7 @@ func infeasible(rows []*Lin) bool {
 		names = append(names, k)
 	}
 	sort.Strings(names)
-	cur := rows
+	cur := pruneRows(rows)
 	for _, v := range names {
 		var pos, negs, rest []*Lin
 		for _, r := range cur {
@@ -379,6 +380,7 @@ func infeasible(rows []*Lin) bool {
 				}
 			}
 		}
+		rest = pruneRows(rest)
 		if len(rest) > 4000 {
 			return false // give up: not proven
 		}
@@ -430,6 +432,9 @@ func (fa *FA) loopFacts(in ssa.Instruction) []Fact {
 				continue
 			}
 			out = append(out, fa.phiLowerBound(phi)...)
+		}
+		if isLoopHeader(b) {
+			out = append(out, fa.loopInvariants(b)...)
 		}
 	}
 	return out
@@ -483,3 +488,247 @@ func (fa *FA) phiLowerBound(phi *ssa.Phi) []Fact {
 // satisfies i+1 ≥ init+1; handled through Lin arithmetic automatically.
 
 var _ = types.Typ
+
+// ---- inductive loop invariants (template-based, Houdini-style) ---------------------
+//
+// For a loop header H with integer phis, candidate invariants of the forms
+//     c <= p            (c in {-1,0})
+//     p <= q + c        (q another phi or a bound term of the loop; c in {-1,0,1})
+// are checked for initiation on the entry edges and consecution on the back edges
+// (assuming all surviving candidates at the header); failing candidates are dropped
+// until a fixed point. Survivors are inductive invariants of the header.
+
+var loopInvCache = map[*ssa.BasicBlock][]Fact{}
+
+func isLoopHeader(b *ssa.BasicBlock) bool {
+	for _, p := range b.Preds {
+		if p == b || b.Dominates(p) {
+			return true
+		}
+	}
+	return false
+}
+
+func substLin(l *Lin, m map[string]*Lin) *Lin {
+	out := linConst(l.C)
+	for k, c := range l.T {
+		if r, ok := m[k]; ok {
+			out = out.addScaled(r, c)
+		} else {
+			a := newLin()
+			a.T[k] = 1
+			a.Atoms[k] = l.Atoms[k]
+			out = out.addScaled(a, c)
+		}
+	}
+	return out
+}
+
+func (fa *FA) loopInvariants(h *ssa.BasicBlock) []Fact {
+	if inv, ok := loopInvCache[h]; ok {
+		return inv
+	}
+	loopInvCache[h] = nil
+	var phis []*ssa.Phi
+	for _, in := range h.Instrs {
+		phi, ok := in.(*ssa.Phi)
+		if !ok {
+			break
+		}
+		if _, _, isInt := intBits(phi.Type()); isInt && fa.Sym(phi).Op == "phi" {
+			phis = append(phis, phi)
+		}
+	}
+	if len(phis) == 0 {
+		return nil
+	}
+	phiLin := map[*ssa.Phi]*Lin{}
+	for _, p := range phis {
+		phiLin[p] = linAtom(fa.Sym(p))
+	}
+	// bound terms: the non-phi side of comparisons inside the loop whose other side mentions a header phi
+	inLoopBlock := func(b *ssa.BasicBlock) bool {
+		if !(b == h || h.Dominates(b)) {
+			return false
+		}
+		return reachableFrom(b)[h]
+	}
+	mentionsPhi := func(l *Lin) bool {
+		for k := range l.T {
+			for _, p := range phis {
+				if k == fa.Sym(p).K {
+					return true
+				}
+			}
+		}
+		return false
+	}
+	var bounds []*Lin
+	seenB := map[string]bool{}
+	for _, b := range fa.Fn.Blocks {
+		if !inLoopBlock(b) || len(b.Instrs) == 0 {
+			continue
+		}
+		ifi, ok := b.Instrs[len(b.Instrs)-1].(*ssa.If)
+		if !ok {
+			continue
+		}
+		bo, ok := ifi.Cond.(*ssa.BinOp)
+		if !ok {
+			continue
+		}
+		if _, _, isInt := intBits(bo.X.Type()); !isInt {
+			continue
+		}
+		lx, ly := fa.Lin(bo.X), fa.Lin(bo.Y)
+		for _, pr := range [][2]*Lin{{lx, ly}, {ly, lx}} {
+			if mentionsPhi(pr[0]) && !mentionsPhi(pr[1]) {
+				if k := pr[1].String(); !seenB[k] {
+					seenB[k] = true
+					bounds = append(bounds, pr[1])
+				}
+			}
+		}
+	}
+	type cand struct {
+		l   *Lin // l <= 0
+		txt string
+	}
+	var cands []cand
+	for _, p := range phis {
+		for _, c := range []int64{-1, 0} {
+			cands = append(cands, cand{linConst(c).Sub(phiLin[p]), fmt.Sprintf("%d <= %s", c, fa.Sym(p).K)})
+		}
+		var others []*Lin
+		for _, q := range phis {
+			if q != p {
+				others = append(others, phiLin[q])
+			}
+		}
+		others = append(others, bounds...)
+		for _, o := range others {
+			for _, c := range []int64{-1, 0, 1} {
+				cands = append(cands, cand{phiLin[p].Sub(o).Sub(linConst(c)), fmt.Sprintf("%s <= %s%+d", fa.Sym(p).K, o.String(), c)})
+			}
+		}
+	}
+	alive := make([]bool, len(cands))
+	for i := range alive {
+		alive[i] = true
+	}
+	changed := true
+	for iter := 0; changed && iter < 20; iter++ {
+		changed = false
+		for ci, cd := range cands {
+			if !alive[ci] {
+				continue
+			}
+			ok := true
+			for ei, pred := range h.Preds {
+				sub := map[string]*Lin{}
+				for _, p := range phis {
+					sub[fa.Sym(p).K] = fa.Lin(p.Edges[ei])
+				}
+				goal := substLin(cd.l, sub)
+				facts := fa.edgeFacts(pred, h, goal)
+				isBack := pred == h || h.Dominates(pred)
+				if isBack {
+					for cj, c2 := range cands {
+						if alive[cj] {
+							facts = append(facts, Fact{c2.l, "assumed invariant " + c2.txt})
+						}
+					}
+					facts = fa.closeFacts(facts, goal)
+				}
+				if !Entails(facts, goal) && !fa.entailsPhiSplit(pred.Instrs[len(pred.Instrs)-1], facts, goal, linConst(0), 2) {
+					ok = false
+					if os.Getenv("DBG_INV") != "" {
+						fmt.Fprintf(os.Stderr, "   cand %s fails on edge %d->%d goal %s <= 0 (%d facts)\n", cd.txt, pred.Index, h.Index, goal.String(), len(facts))
+					}
+					break
+				}
+			}
+			if !ok {
+				alive[ci] = false
+				changed = true
+				if os.Getenv("DBG_INV") != "" {
+					fmt.Fprintf(os.Stderr, "iter %d drop %s\n", iter, cd.txt)
+				}
+			}
+		}
+	}
+	var out []Fact
+	for ci, cd := range cands {
+		if alive[ci] {
+			out = append(out, Fact{cd.l, "inductive loop invariant: " + cd.txt})
+		}
+	}
+	loopInvCache[h] = out
+	return out
+}
+
+func gcd64(a, b int64) int64 {
+	if a < 0 {
+		a = -a
+	}
+	if b < 0 {
+		b = -b
+	}
+	for b != 0 {
+		a, b = b, a%b
+	}
+	return a
+}
+
+// pruneRows normalises rows (divide by the gcd of the coefficients, rounding the constant up,
+// which is sound over the integers) and keeps, among rows with identical coefficients, the strongest.
+func pruneRows(rows []*Lin) []*Lin {
+	best := map[string]*Lin{}
+	var order []string
+	for _, r := range rows {
+		if len(r.T) == 0 {
+			if r.C > 0 {
+				return []*Lin{r} // contradiction found
+			}
+			continue
+		}
+		g := int64(0)
+		for _, c := range r.T {
+			g = gcd64(g, c)
+		}
+		n := r
+		if g > 1 {
+			n = newLin()
+			for k, c := range r.T {
+				n.T[k] = c / g
+				n.Atoms[k] = r.Atoms[k]
+			}
+			// T·x + C <= 0 with T divisible by g:  (T/g)·x <= -C/g  → integer: (T/g)·x + ceil(C/g) <= 0
+			c := r.C
+			q := c / g
+			if c%g != 0 && c > 0 {
+				q++
+			}
+			n.C = q
+		}
+		keys := make([]string, 0, len(n.T))
+		for k, c := range n.T {
+			keys = append(keys, fmt.Sprintf("%s*%d", k, c))
+		}
+		sort.Strings(keys)
+		key := strings.Join(keys, "|")
+		if old, ok := best[key]; ok {
+			if n.C > old.C {
+				best[key] = n
+			}
+		} else {
+			best[key] = n
+			order = append(order, key)
+		}
+	}
+	out := make([]*Lin, 0, len(order))
+	for _, k := range order {
+		out = append(out, best[k])
+	}
+	return out
+}
